@@ -22,6 +22,7 @@ import (
 func init() {
 	streams["marks-stdlib"] = func(s *stream.Stream, c *streamCtx) error { return streamMarks(s, c, "stdlib") }
 	streams["marks-gen"] = func(s *stream.Stream, c *streamCtx) error { return streamMarks(s, c, "gen") }
+	streams["marks-corpus"] = func(s *stream.Stream, c *streamCtx) error { return streamMarks(s, c, "corpus") }
 }
 
 const stdlibRoot = "/usr/share/go-1.23/src"
@@ -184,6 +185,17 @@ func streamMarks(s *stream.Stream, c *streamCtx, corpus string) error {
 		}
 		sort.Strings(all)
 		files = all
+	case "corpus":
+		// minimised past disagreements and known-finding witnesses, committed under /verif/corpus
+		dir := os.Getenv("VERIF_CORPUS")
+		if dir == "" {
+			exe, _ := os.Executable()
+			dir = filepath.Join(filepath.Dir(exe), "..", "..", "corpus")
+		}
+		ms, _ := filepath.Glob(filepath.Join(dir, "*.go"))
+		sort.Strings(ms)
+		files = ms
+		k, singlesCap = 6, 60
 	case "gen":
 		n := 150
 		if c.thorough() {
